@@ -875,6 +875,41 @@ example : merge (V := Nat) ⟨fun (_ : Nat) => BFreq.I, (· + ·), (· + ·), fu
     [("a", .ser 2), ("k", .scalar (some 1))] [[("a", .ser 5), ("k", .list [none, some 7]), ("z", .ser 9)]]
       = .ok [("a", .ser 10), ("k", .list [some 1, none, some 7]), ("z", .ser 9)] := by decide
 
+
+/-! ### Spellings of one call -/
+
+/-- **option resolution of `merge`, exhaustively**: the deprecated `action=` keyword, when given, decides; otherwise the explicit
+strategy (positional or `merge_strategy=`); otherwise `"stack"` -/
+theorem merge_strategy_resolution (explicit legacy : Option Strategy) :
+    resolveStrategy explicit legacy
+      = match explicit, legacy with
+        | _, some a => a
+        | some e, none => e
+        | none, none => .stack := by
+  cases explicit <;> cases legacy <;> rfl
+
+/-- every spelling of one intention is the same call: `merge(o, s)`, `merge(o, merge_strategy=s)`, `merge(o, action=s)` -/
+theorem merge_spellings_agree (o : SOps S) (st : Strategy) (db : Box S V) (others : List (Box S V)) :
+    mergeCall o (some st) none db others = merge o st db others
+      ∧ mergeCall o none (some st) db others = merge o st db others
+      ∧ mergeCall o none none db others = merge o .stack db others := ⟨rfl, rfl, rfl⟩
+
+/-- `Databox.by_merging(boxes, s)` is `merge` into an empty databox -/
+theorem by_merging_is_merge (o : SOps S) (st : Strategy) (boxes : List (Box S V)) :
+    byMerging o (some st) boxes = merge o st [] boxes := rfl
+
+/-- **legacy options of the reader** (`date_creator`, `start_date_only`): the new option wins when it is given, the legacy one
+is used only when the new one is `None` -/
+theorem legacy_option_resolution {α : Type} (option legacy : Option α) :
+    resolveLegacy option legacy = match option, legacy with
+      | some x, _ => some x
+      | none, l => l := by
+  cases option <;> cases legacy <;> rfl
+
+example : mergeCall (V := Nat) ⟨fun (_ : Nat) => BFreq.Q, (· + ·), (· + ·), fun a _ _ => a, (· * ·)⟩ none (some .replace)
+    [("a", .ser 2), ("k", .scalar (some 1))] [[("a", .ser 5), ("z", .ser 9)]]
+      = .ok [("a", .ser 5), ("k", .scalar (some 1)), ("z", .ser 9)] := by decide
+
 /-- **lifting to sequences**: in any sequence of operations, a name is finally bound to what the last operation that selects it
 made of it -- if the operations after `op` do not select `n`, the final binding of `n` is its binding right after `op` (which
 the theorems above give per kind of operation) -/
